@@ -544,7 +544,10 @@ func (c *Conn) CanOpenStream() bool {
 		return false
 	}
 
-	return atomic.LoadInt32(&c.openStreams) < int32(atomic.LoadUint32(&c.maxStreams))
+	// In 64 bits: SETTINGS_MAX_CONCURRENT_STREAMS is any 32-bit value, and one
+	// of 2^31 or more, which means no limit to speak of, would come out negative
+	// in 32 and refuse every request.
+	return int64(atomic.LoadInt32(&c.openStreams)) < int64(atomic.LoadUint32(&c.maxStreams))
 }
 
 // Closed indicates whether the connection is closed or not.
